@@ -4,11 +4,16 @@ import gens
 import hashlib
 
 
-def unhex(s):
+def _unhex0(s):
     if s.startswith("rep:"):
         h, n = s[4:].split("*")
         return bytes.fromhex(h) * int(n)
     return b"" if s == "." else bytes.fromhex(s)
+
+
+def unhex(s):
+    """a byte-string argument of a call; `shared_objects` swaps this for pooled bytearray objects"""
+    return _unhex0(s)
 
 
 def optb(s):
@@ -20,20 +25,20 @@ def optn(s):
 
 
 def text(s):
-    return unhex(s).decode("utf-8")
+    return _unhex0(s).decode("utf-8")
 
 
 def sb(s):
     if s == "-":
         return None
-    return text(s[2:]) if s.startswith("s:") else unhex(s[2:])
+    return text(s[2:]) if s.startswith("s:") else _unhex0(s[2:])
 
 
 def parse_tree(toks):
     def val(i):
         t = toks[i]
-        if t == "B": return unhex(toks[i + 1]), i + 2
-        if t == "A": return bytearray(unhex(toks[i + 1])), i + 2
+        if t == "B": return _unhex0(toks[i + 1]), i + 2
+        if t == "A": return bytearray(_unhex0(toks[i + 1])), i + 2
         if t == "S": return text(toks[i + 1]), i + 2
         if t == "O": return 5, i + 1
         if t == "D":
@@ -115,3 +120,34 @@ def thunk(line):
 
 def py_answer(line):
     return canon(thunk(line))
+
+
+class shared_objects:
+    """Within the block every byte-string argument of a re-executed call is a `bytearray` taken from a pool keyed
+    by content: equal values are the *same object*, across calls, and the caller never rewrites them.  A callee
+    that updates an argument in place, or keeps a reference to one, changes what later calls see."""
+
+    def __init__(self, limit=65536):
+        self.pool = {}; self.limit = limit
+
+    def __enter__(self):
+        global unhex
+        self._old = unhex
+
+        def pooled(s):
+            b = _unhex0(s)
+            if len(b) > self.limit:
+                return b
+            o = self.pool.get(b)
+            if o is None:
+                o = self.pool[b] = bytearray(b)
+            return o
+        unhex = pooled
+        return self
+
+    def __exit__(self, *a):
+        global unhex
+        unhex = self._old
+
+    def modified(self):
+        return [(k, bytes(o)) for k, o in self.pool.items() if bytes(o) != k]
